@@ -47,13 +47,18 @@ def run(ctx):
                 if [x["pos"] for x in g1] != [x["pos"] for x in g2]:
                     problem = f"positions of generation {k} differ"
                     break
-                if [x["cost"] for x in g1] != [bits(-from_bits(x["cost"])) for x in g2]:
+                # NaN has no sign: a NaN cost mirrors a NaN cost whatever the sign bit of its encoding (that a cost IS NaN is C01 / C05's business)
+                nn = lambda c: "nan" if from_bits(c) != from_bits(c) else c
+                if [nn(x["cost"]) for x in g1] != [nn(bits(-from_bits(x["cost"]))) for x in g2]:
                     problem = f"costs of generation {k} are not exact negatives"
                     break
         if problem:
             ctx.fail(f"C12/{j['name']}/max-f-differs-from-min-negf", problem, "S-rel", {"job": oracles.job_key(j)})
             continue
         # the readers (C12.c12_readers): the agent of rank k of generation i is at the same position with the negated cost in both results, ties included
+        if any(from_bits(x["cost"]) != from_bits(x["cost"]) for g in a["evolution"] for x in g):
+            ctx.dist["c12-pairs-with-nan-costs (rank readers not compared: NaN has no rank)"] += 1
+            continue
         ua, ub = r.get("readers_max") or {}, r.get("readers_min") or {}
         ties = any(len({x["cost"] for x in g}) < len(g) for g in a["evolution"])
         ctx.dist["c12-pairs-with-cost-ties" if ties else "c12-pairs-without-ties"] += 1
